@@ -24,7 +24,9 @@ EXTENDS Naturals, Sequences, FiniteSets, TLC
 
 CONSTANTS ResetOnGo,      \* BOOLEAN
           MaxCmds,        \* bound on the number of commands (0 = unbounded)
-          HashMinZero     \* BOOLEAN: the GUI may set Hash to 0 (advertised minimum of the code as found)
+          HashMinZero,    \* BOOLEAN: the GUI may set Hash to 0 (advertised minimum of the code as found)
+          InfiniteMayEnd  \* BOOLEAN: an `infinite' search may return by itself (depth range exhausted); FALSE for the
+                          \* graph whose paths are forced on the binary with ordinary positions
 
 VARIABLES mpc,          \* input thread: "idle" | "stopwait" | "nglock" | "exited"
           control,      \* 0 = no handle, else the slot whose flag `stop' raises
@@ -146,6 +148,17 @@ SExit(s) ==
     /\ S(s, "exit")
     /\ UNCHANGED <<mpc, control, latch, nextSlot, outstanding, hashZero, crashed, ncmd>>
 
+\* An `infinite' search may also come back by itself: the iteration loop ends at depth 255, which dead-material
+\* positions reach within milliseconds.  Same step as SExit, but nothing obliges it to happen (no fairness).
+SExhaust(s) ==
+    /\ mpc # "exited"
+    /\ InfiniteMayEnd
+    /\ th[s].st = "searching" /\ ~th[s].finite /\ ~th[s].flag
+    /\ mutex' = 0
+    /\ th' = [th EXCEPT ![s].st = "released"]
+    /\ S(s, "exit")
+    /\ UNCHANGED <<mpc, control, latch, nextSlot, outstanding, hashZero, crashed, ncmd>>
+
 \* ... then bestmove is printed ...
 SFinish(s) ==
     /\ mpc # "exited"
@@ -164,7 +177,7 @@ SLatch(s) ==
     /\ S(s, "latch")
     /\ UNCHANGED <<mpc, control, mutex, nextSlot, outstanding, hashZero, crashed, ncmd>>
 
-Thread(s) == SLock(s) \/ SFinish(s) \/ SLatch(s) \/ SExit(s)
+Thread(s) == SLock(s) \/ SFinish(s) \/ SLatch(s) \/ SExit(s) \/ SExhaust(s)
 
 Terminated == mpc = "exited" /\ UNCHANGED vars
 
